@@ -346,4 +346,9 @@ def r_drain_constraints(ctx):
     task_rules.r_drain(ctx, only=("constraints",))
 
 
-RULES = [r_fol_table, r_single_route, r_expr, r_force_apply, r_drain_constraints]
+def _base_store(ctx):
+    from rules import tasks as _t
+    _t.r_base_store(ctx)
+
+
+RULES = [r_fol_table, r_single_route, r_expr, r_force_apply, r_drain_constraints, _base_store]
